@@ -43,6 +43,9 @@ objs=[u*v*dx(degree=6)]'''),
     _c("c12_p3_gll_warped", '''
 m=mesh("triangle"); V=FunctionSpace(m,el("P","triangle",3,lagrange_variant=basix.LagrangeVariant.gll_warped)); u,v=TrialFunction(V),TestFunction(V)
 objs=[u*v*dx(degree=6)]'''),
+    _c("c12_expression_several_coefficient_spaces", '''
+m=mesh("triangle"); f=Coefficient(space(m,"P",2)); g=Coefficient(space(m,"P",1)); h=Coefficient(space(m,"DP",0)); k=Constant(m); k2=Constant(m,shape=(2,))
+objs=[(f*g + grad(f)[0]*h + k, np.array([[0.25,0.25],[0.5,0.125]])), (k2*h*g + grad(g)*k, np.array([[0.125,0.25]]))]'''),
     _c("c12_expression_and_forms", '''
 m=mesh("triangle"); V=space(m,"P",2); f=Coefficient(V); g=Coefficient(V); v=TestFunction(V)
 objs=[f*g*v*dx, (grad(f)*g, np.array([[0.25,0.25],[0.5,0.125]]))]'''),
@@ -88,7 +91,13 @@ def run(v, tier, seed, g):
     seeds = [0, 1, 2, 3] if tier == "quick" else list(range(0, 12)) + [12345, 999983]
     configs = [(0, "isolated", "C"), (0, "isolated", "numba")] + [(s, "plain", "C") for s in seeds] + [(0, "objects_first", "C"), (1, "reverse", "C"), (2, "interleaved", "C"), (0, "twice", "C"),
                                                    (0, "plain", "numba"), (3, "objects_first", "numba")]
-    procs = [(cfg, run_proc(cases, cfg[0], cfg[1], cfg[2])) for cfg in configs]
+    # counter shifts: the cases that create several counted UFL objects, each generated alone after k unrelated objects
+    counted = [c for c in cases if c["code"].count("Coefficient(") + c["code"].count("Constant(") >= 2]
+    exprs_first = sorted(counted, key=lambda c: 0 if "np.array" in c["code"] else 1)
+    shifted = exprs_first[:(24 if tier == "quick" else 400)]
+    shifts = [(0, f"shift:{k}", "C") for k in range(1, 11)]
+    configs = configs + shifts
+    procs = [(cfg, run_proc(shifted if cfg[1].startswith("shift:") else cases, cfg[0], cfg[1], cfg[2])) for cfg in configs]
     res = collect(procs)
     base = {lang: next(r for r in res if r["key"] == (0, "isolated", lang)) for lang in ("C", "numba")}
     ncmp, ndiff = 0, 0
@@ -116,6 +125,8 @@ def run(v, tier, seed, g):
         s, mode, lang = keys[0]
         sub = [c for c in cases] if mode in ("reverse", "interleaved") else [code]
         sub = [c for c in cases] if mode in ("reverse", "interleaved", "plain", "objects_first", "twice") else [code]
+        if mode.startswith("shift:"):
+            sub = [code]
         pr = collect([((0, "plain", lang), run_proc([code], 0, "plain", lang, keep=[cid])), ((s, mode, lang), run_proc(sub, s, mode, lang, keep=[cid]))])
         t0, t1 = pr[0]["texts"].get(cid, ""), pr[1]["texts"].get(cid, "")
         v.violation(f"c12-nondeterministic:{cid}", f"generated {lang} text of case {cid} differs between (PYTHONHASHSEED=0, generated alone in a fresh process) and (PYTHONHASHSEED={s}, {mode}): {first_diff(t0, t1)}",
@@ -126,7 +137,7 @@ def run(v, tier, seed, g):
                                                                           "subprocess runs of ffcx.compiler.compile_ufl_objects under different PYTHONHASHSEED and histories"],
            "programs": len(cases), "configurations": [list(c) for c in configs], "disagreements_checked": ncmp, "evaluations": ncmp, "distinct_nontrivial": len(cases) * (len(configs) - 2),
            "differing": ndiff,
-           "rule": "every case generated in one subprocess per configuration (hash seed x history: plain, unrelated UFL objects first, reverse order, another form compiled in between, same form twice; C and numba); digests compared with the text generated for the case alone in a fresh process (seed 0)",
+           "rule": "every case generated in one subprocess per configuration (hash seed x history: plain, unrelated UFL objects first, reverse order, another form compiled in between, same form twice; C and numba; and, for the cases with several coefficients / constants, alone after k = 1..10 unrelated UFL objects of every counted kind); digests compared with the text generated for the case alone in a fresh process (seed 0)",
            "axioms_under_property_theorems": g.get("axioms", [])}
     return v.finish("proof", cov, ["forms, seeds and histories sampled; proved: a sorted site is enumeration-independent, and every site found in ffcx/ is Sorted/OrderFree/ListDedup (finite, regenerated)",
                                    "UFL's own ordering functions (sort_elements, renumbering) are outside the scan"])
